@@ -52,6 +52,7 @@ func checkC02(c *Ctx) {
 	r.Rule("C02.b", "constraint collection, type-variable collection and substitution visit every sub-expression on every path (TRAV)", 20)
 	r.Rule("C02.c", "closed forms of the numbering chain, anchor unifications and fresh instantiation", 15)
 	r.Rule("C02.d", "result annotation feeds the function's own type (declared and returned)", 2)
+	r.Rule("C02.f", "visited sets of the FType traversals guard recursion only: inserted under their own membership test, removed when the guarded subtree is done, type arguments traversed outside", 6)
 	r.Rule("C02.e", "no unification obligation is dropped: every call result carrying a []UniRel is bound, returned or passed on", 40)
 	f := c.LoadFC("fc")
 	if f == nil {
@@ -135,6 +136,8 @@ func checkC02(c *Ctx) {
 	}
 	// (e)
 	checkRelationsNotDropped(c, f)
+	// (f)
+	checkGuardDiscipline(c, f)
 	// (b)
 	tv := newTravAn(c, f)
 	tv.checkTraversal("C02.b", "collectExprRel", []string{"collectBlock", "collectStmtRel", "collectSlice"}, 6)
